@@ -134,3 +134,18 @@ Proof.
   - destruct has; split; discriminate.
   - destruct has; split; discriminate.
 Qed.
+
+Lemma skip_lemma : forall D chunks tid o st ix parents force skip skip' cs,
+  option_map fst (archive D chunks tid o st ix parents force skip cs) =
+  option_map fst (archive D chunks tid o st ix parents force skip' cs).
+Proof.
+  intros. unfold archive. destruct (parent_new st (if force then [] else parents)) as [P0 tids].
+  destruct (arch_list D chunks tid o st ix cs P0) as [[P' nodes]|]; reflexivity.
+Qed.
+
+Lemma force_lemma : forall D chunks tid o st ix parents skip cs,
+  exists w, archive D chunks tid o st ix parents true skip cs = Some (tid (map (read_all D chunks tid) cs), w).
+Proof.
+  intros. unfold archive, parent_new. cbv beta iota zeta. change (load_trees st []) with (@nil ptree).
+  destruct (no_parent_reads_everything D chunks tid o st ix cs []) as [P' E]. rewrite E. eexists; reflexivity.
+Qed.
